@@ -26,6 +26,20 @@ FEATURES = {
     "nonlocal": ["def nl():", "    t = a", "    def inc():", "        nonlocal t", "        t += 1", "        <USE>", "        return t", "    return inc()", "log('n', nl())"],
     "return_loop": ["def rl():", "    for q in [1, 2, 3]:", "        <USE>", "        if q == 2:", "            return q", "    return -1", "log('r', rl())"],
     "init_subclass": ["class Bs:", "    def __init_subclass__(cls, **kw):", "        cls.tag = 1", "        <USE>", "class Ds(Bs):", "    pass", "log('s', Ds.tag)"],
+    # the identifier is read in a HEADER position (condition / iterable / default / decorator /
+    # base / return value), i.e. inside the lambdas and comprehension headers the lowering builds
+    "while_cond": ["n = 0", "while n < 2 and (<USEX> or True):", "    n += 1", "log('n', n)"],
+    "while_cond_break": ["n = 0", "while (<USEX> or True) and n < 5:", "    n += 1", "    if n == 2:", "        break", "else:", "    log('we')", "log('n', n)"],
+    "for_iter": ["for q in (<USEX> or [1, 2]):", "    log('q', q)"],
+    "for_iter_break": ["for q in (<USEX> or [1, 2, 3]):", "    if q == 2:", "        break", "else:", "    log('fe')"],
+    "if_test_in_while": ["n = 0", "while n < 2:", "    n += 1", "    if <USEX> or n == 1:", "        log('t', n)", "    else:", "        log('e', n)"],
+    "def_default": ["def dd(p=(<USEX> or 7)):", "    return p", "log('dd', dd())"],
+    "decorator_expr": ["def mkdeco(z):", "    def d(f):", "        return f", "    return d", "@mkdeco(<USEX>)", "def df():", "    return 1", "log('df', df())"],
+    "class_base_kw": ["class Bk:", "    def __init_subclass__(cls, **kw):", "        cls.kw = sorted(kw)", "class Ck(Bk, opt=(<USEX> or 1)):", "    pass", "log('ck', Ck.kw)"],
+    "return_value": ["def rv():", "    for q in [1, 2]:", "        if q == 2:", "            return (<USEX> or q)", "    return 0", "log('rv', rv())"],
+    "aug_value": ["acc = [1]", "acc[0] += (<USEX> or 1)", "log('acc', acc)"],
+    "destructure_value": ["p, *q = (<USEX> or (1, 2, 3))", "log('pq', p, q)"],
+    "import_then_use": ["from math import floor as fl", "log('fl', fl(2.5), <USEX>)"],
     "super_method": ["class Pa:", "    def m(self_):", "        return 1", "class Ch(Pa):", "    def m(self_):", "        <USE>", "        return super().m() + 1", "log('sm', Ch().m())"],
 }
 
@@ -51,9 +65,12 @@ def use_stmt(name, role):
 def program(name, role, feature):
     use = use_stmt(name, role)
     body = []
+    usex = use.replace("'u'", "'x'")
     for l in FEATURES[feature]:
         if "<USE>" in l:
             body.append(l.replace("<USE>", use))
+        elif "<USEX>" in l:
+            body.append(l.replace("<USEX>", usex))
         else:
             body.append(l)
     post = use.replace("'u'", "'p'")
